@@ -76,12 +76,16 @@ var patLists = []patList{
 	{"dir-only", []string{"$R/safe"}},
 	{"bare-star", []string{"*"}},
 	{"dir-slash", []string{"$R/safe/"}},
+	{"other-case", []string{"$R/SAFE/*", "$R/safe/A.TXT", "$R/Unsafe/e.txt"}},
 }
 
 // The *_stored entries are refreshes of a list that already has contents on
 // disk (fetched earlier, e.g. from another address before the configuration
 // was edited): the location must be checked again all the same.
-var entries = []string{"add", "set_url", "set_url_2step", "refresh", "periodic", "refresh_stored", "periodic_stored"}
+// add_after_a adds the list $R/safe/a.txt first (accepted or refused by the
+// patterns) and then the location, on the same instance: what one check has
+// accepted must not widen what the next one accepts.
+var entries = []string{"add", "set_url", "set_url_2step", "refresh", "periodic", "refresh_stored", "periodic_stored", "add_after_a"}
 
 // ---------------------------------------------------------------------------
 // location grammar
@@ -538,6 +542,10 @@ func (e *env) exec(cs *caseC) (o *obsT) {
 		switch cs.Entry {
 		case "add":
 			post(d.VerifC17AddURL, map[string]any{"name": "hostile", "url": loc, "whitelist": cs.White}, o)
+		case "add_after_a":
+			var o0 obsT
+			post(d.VerifC17AddURL, map[string]any{"name": "legit", "url": filepath.Join(e.root, canaryFiles[0]), "whitelist": cs.White}, &o0)
+			post(d.VerifC17AddURL, map[string]any{"name": "hostile", "url": loc, "whitelist": cs.White}, o)
 		case "set_url":
 			post(d.VerifC17SetURL, setReq{Data: &data{"hostile", loc, true}, URL: baseURL, Whitelist: cs.White}, o)
 		case "set_url_2step":
@@ -619,6 +627,10 @@ func (e *env) exec(cs *caseC) (o *obsT) {
 			}
 		}
 	}()
+	if cs.Entry == "add_after_a" && allowed(pats, filepath.Join(e.root, canaryFiles[0])) {
+		// The first list was read legitimately.
+		delete(o.Canaries, 1)
+	}
 	if len(o.Canaries) > 0 {
 		o.Unknown = ""
 	}
@@ -778,6 +790,9 @@ func run(c *lib.Ctx) {
 					if mine++; mine%64 == 0 && c.Expired() {
 						return false
 					}
+					if en == "add_after_a" && (l.Target == canaryFiles[0] || strings.HasSuffix(filepath.Clean(l.Loc), "/"+canaryFiles[0])) {
+						continue // the location is the first list itself
+					}
 					cs := caseC{PatName: pl.Name, Pats: pl.Pats, Loc: e.unsub(l.Loc), Entry: en, White: white, Class: l.Class, Target: l.Target, Cwd: cwd}
 					e.check(&cs)
 					if idx%9973 == 0 {
@@ -843,7 +858,7 @@ func main() {
 				"http_requests_attempted":             m.Counters["http_requests_attempted"],
 				"pattern_lists":                       len(patLists),
 				"entry_points":                        entries,
-				"rule":                                "11 pattern lists (empty, exact, dir/*, dir/?.txt, dir/[ab].txt, */a.txt, two patterns, root/*/a.txt, directory itself, *, dir/) x locations x 7 entry points (add_url, set_url, set_url disabled-then-enabled, forced refresh handler, periodic refresh tick — the last two with the location already in the configuration, each also with contents of the list already stored from an earlier fetch) x block/allow registry. Locations: 13 targets (10 canary files in safe dir, its sub-directory, unsafe dir, tree root, look-alike 'safe-evil' dir; a missing file; two directories) x dot-dot routes (direct, via safe/, safe/sub/, a FILE safe/a.txt/, unsafe/, safe-evil/, overshoot above /) x departures: segment insertion (/./, //, /x/../), percent-encoding (last separator, dots, first letter), suffix (/, /., //, /x/.., ?x=1), prefix (relative to cwd=safe dir, ./relative, file://, FILE://, file:, file://localhost, ftp://, ftp://host, unix://, http://closed-port, https://, http://, leading space) + 18 stand-alone spellings (empty, NUL bytes, backslashes, ~). non-trivial = case in which a canary file was legitimately read, or a spelling aimed at an existing canary file had to be refused",
+				"rule":                                "12 pattern lists (empty, patterns differing from the tree only in letter case, exact, dir/*, dir/?.txt, dir/[ab].txt, */a.txt, two patterns, root/*/a.txt, directory itself, *, dir/) x locations x 8 entry points (add_url, add_url after the list safe/a.txt has been added on the same instance, set_url, set_url disabled-then-enabled, forced refresh handler, periodic refresh tick — the last two with the location already in the configuration, each also with contents of the list already stored from an earlier fetch) x block/allow registry. Locations: 13 targets (10 canary files in safe dir, its sub-directory, unsafe dir, tree root, look-alike 'safe-evil' dir; a missing file; two directories) x dot-dot routes (direct, via safe/, safe/sub/, a FILE safe/a.txt/, unsafe/, safe-evil/, overshoot above /) x departures: segment insertion (/./, //, /x/../), percent-encoding (last separator, dots, first letter), suffix (/, /., //, /x/.., ?x=1), prefix (relative to cwd=safe dir, ./relative, file://, FILE://, file:, file://localhost, ftp://, ftp://host, unix://, http://closed-port, https://, http://, leading space) + 18 stand-alone spellings (empty, NUL bytes, backslashes, ~). non-trivial = case in which a canary file was legitimately read, or a spelling aimed at an existing canary file had to be refused",
 			}
 		},
 		Assumptions: []string{
